@@ -260,7 +260,8 @@ def histories(depth: int) -> list[list[tuple[str, ...]]]:
 def handler_sets(tier: str) -> list[tuple[str, list[dict]]]:
     sets: list[tuple[str, list[dict]]] = []
     filt = {'labels': {'on': 'yes'}}
-    for reaction, backoff, timeout in itertools.product(['obeys', 'cancel', 'ignore'], [None, 2.0], [None, 3.0]):
+    for reaction, backoff, timeout in list(itertools.product(['obeys', 'cancel', 'ignore'], [None, 2.0], [None, 3.0])) + \
+            [('cancel', 3.0, 2.0), ('ignore', 3.0, 2.0), ('cancel', 2.0, 2.0)]:      # + a backoff not shorter than the timeout
         if tier == 'quick' and reaction == 'obeys' and (backoff, timeout) not in ((None, None), (2.0, 3.0)):
             continue
         sets.append((f'daemon[{reaction},{backoff},{timeout}]',
